@@ -620,6 +620,25 @@ fn deviations_at(svc: &Service, step: &str, thorough: bool, fails: &Mutex<Vec<Va
                 if o.class != want {
                     fail("unknown-id".into(), format!("{} with an unknown client id: {} ({:?}), expected {}", step, o.class, o.replies.last(), want));
                 }
+                if step == "Test01" {
+                    // ids are opaque strings: a re-spelling of a live id (as a number it would be "the same") was never issued
+                    let up = id.to_uppercase();
+                    let mut near: Vec<String> = vec![format!("0{}", id), format!("+{}", id), format!("{} ", id), format!(" {}", id), format!("0x{}", id), format!("{}0", id)];
+                    if up != id {
+                        near.push(up);
+                    }
+                    if let Some(stripped) = id.strip_prefix('0') {
+                        near.push(stripped.to_string());
+                    }
+                    for n in near {
+                        execs.fetch_add(1, Ordering::Relaxed);
+                        let o = conn.call(&method, Some(with_id(&params, &n)), canon_mode);
+                        if o.class != "clientid" {
+                            fail("respelled-id".into(), format!("Test01 with client id {:?}, a re-spelling of the issued id {:?}: {} ({:?}), expected a client-id error", n, id, o.class, o.replies.last()));
+                            break;
+                        }
+                    }
+                }
             }
             Err(e) => fail("start".into(), e),
         }
